@@ -814,7 +814,9 @@ def rt_loss_invariance(inp):
     import torch
     from quantem.diffractive_imaging.ptycho_utils import SimpleBatcher
 
-    pt = _toy(3)
+    if "pt3" not in _TOY:
+        _TOY["pt3"] = _toy(3)
+    pt = _TOY["pt3"]
     loss_type = inp["loss_type"]
     pt.dset._set_targets(loss_type)
     pt.compute_propagator_arrays()
@@ -882,7 +884,7 @@ def rt_seeded_history(inp):
 
 
 def fam_seeded_history(tier="quick", seed=0):
-    for sd in ((0, 7) if tier == "quick" else (0, 1, 7, 42, 2 ** 33 + 5)):
+    for sd in ((0,) if tier == "quick" else (0, 1, 7, 42, 2 ** 33 + 5)):
         yield dict(seed=sd, batch_size=9)
 
 
